@@ -31,7 +31,7 @@ theorem se3_ad_support (a : Vec ℝ 6) (i j : Fin 6) (h : inAd .se3 i.val j.val 
 theorem se2_d_support (a : Vec ℝ 3) (i j : Fin 3) (h : inD .se2 i.val j.val = false) :
     SE2.dr_exp a i j = 0 ∧ SE2.dr_expinv a i j = 0 := by
   fin_cases i <;> fin_cases j <;> simp [inD] at h <;>
-    simp [SE2.dr_exp, SE2.dr_expinv, SE2.ad, mmul, vsum, mat3, ident, memoM_eq, Mat.of]
+    simp [SE2.dr_exp, SE2.dr_expinv, SE2.ad, mmul, msmul, vsum, mat3, ident, memoM_eq, Mat.of]
 
 theorem se3_d_support (a : Vec ℝ 6) (i j : Fin 6) (h : inD .se3 i.val j.val = false) :
     SE3.dr_exp a i j = 0 ∧ SE3.dr_expinv a i j = 0 := by
